@@ -20,6 +20,8 @@ func main() {
 	case "worker":
 		explore.WorkerMain()
 		return
+	case "replay":
+		os.Exit(checks.Replay(os.Args[2]))
 	case "debug":
 		os.Exit(checks.DebugPath(os.Args[2], os.Args[3], os.Args[4]))
 	}
